@@ -7,6 +7,8 @@
 #include <signal.h>
 #include <sys/wait.h>
 #include <iv_event_raw.h>
+#include <poll.h>
+#define MT_SPIN_MONITOR
 #include "mt.h"
 
 #define MAXRAW 32
@@ -26,7 +28,7 @@ static _Atomic unsigned char is_raw_wfd[4096];
 static int actions_left[MAXLOOP];
 static _Atomic long total_posts, total_entries, sig_posts, thread_posts, owner_posts, child_posts, burst_posts, blocking_checked, eagain_writes;
 static pthread_t main_thread;
-static _Atomic long failed_registers, handler_bursts;
+static _Atomic long failed_registers, handler_bursts, quit_reenters;
 static _Atomic int sig_target = -1;
 static pid_t child_pid;
 static _Atomic int child_alive;
@@ -156,6 +158,7 @@ static void raw_cb(void *cookie)
 	int i = (int)(uintptr_t)cookie - 1, k;
 	struct loopthr *lt;
 
+	MT_CB();
 	if (i < 0 || i >= MAXRAW || atomic_load(&rw[i].state) == 0) {
 		mon_viol("C01", "stale-handler", "raw", "raw event handler invoked for slot %d which is not registered", i);
 		return;
@@ -188,7 +191,32 @@ static void raw_cb(void *cookie)
 			slot_unregister(lt, j);
 	} else if (k < 48) {
 		slot_register(lt);
+	} else if (k < 56) {
+		/* leave iv_main() from this handler, with whatever else is ready in the same round still undispatched, and re-enter */
+		atomic_fetch_add(&quit_reenters, 1);
+		mt_quit_reenter(lt);
 	}
+}
+
+int __real_poll(struct pollfd *, nfds_t, int);
+static void scn_spin(struct loopthr *lt, struct vt_wait *w)
+{
+	int i, n = 0;
+	(void)w;
+	for (i = 0; i < MAXRAW; i++) {
+		struct pollfd p;
+		if (atomic_load(&rw[i].state) != 1 || rw[i].owner != lt->idx || !(rw[i].last_post_seq > rw[i].last_entry_seq))
+			continue;
+		p.fd = rw[i].e->event_rfd.fd; p.events = POLLIN; p.revents = 0;
+		if (__real_poll(&p, 1, 0) == 1 && (p.revents & POLLIN)) {
+			n++;
+			mon_viol("C09", "ready-but-never-dispatched", g_method,
+				 "loop %d went through 3000 poll rounds that reported ready descriptors without running a single handler; raw event %d has a post without a later handler run (posts %ld, runs %ld) and its descriptor %d is readable (loop re-entered %ld times after iv_quit from a handler)",
+				 lt->idx, i, (long)rw[i].posts, (long)rw[i].entries, p.fd, lt->reentries);
+		}
+	}
+	if (n == 0)
+		mon_printf("NOTE spin without an undelivered raw post in loop %d\n", lt->idx);
 }
 
 static void scn_setup(struct loopthr *lt)
@@ -403,12 +431,12 @@ int main(int argc, char **argv)
 		run_case(i, seed);
 	mon_printf("STAT method=%s cases=%llu posts=%llu handler_entries=%llu posts_from_threads=%llu posts_from_signal_handler=%llu posts_from_owner=%llu "
 		   "posts_from_forked_child=%llu burst_posts=%llu bursts=%llu children=%llu obligations=%llu discharged=%llu nonblocking_writes_checked=%llu "
-		   "eagain_writes=%llu failed_registers_under_fault=%llu bursts_from_handler=%llu shim_quiescences=%llu sig_deliveries=%llu injected=%llu violations=%d\n",
+		   "eagain_writes=%llu failed_registers_under_fault=%llu bursts_from_handler=%llu quit_and_reenter=%llu shim_quiescences=%llu sig_deliveries=%llu injected=%llu violations=%d\n",
 		   g_method, (unsigned long long)S.cases, (unsigned long long)S.posts, (unsigned long long)S.entries,
 		   (unsigned long long)S.thread_posts, (unsigned long long)S.sig_posts, (unsigned long long)S.owner_posts,
 		   (unsigned long long)S.child_posts, (unsigned long long)S.burst_posts, (unsigned long long)S.bursts,
 		   (unsigned long long)S.children, (unsigned long long)S.obligations, (unsigned long long)S.discharged,
-		   (unsigned long long)blocking_checked, (unsigned long long)eagain_writes, (unsigned long long)failed_registers, (unsigned long long)handler_bursts,
+		   (unsigned long long)blocking_checked, (unsigned long long)eagain_writes, (unsigned long long)failed_registers, (unsigned long long)handler_bursts, (unsigned long long)quit_reenters,
 		   (unsigned long long)vt_stats.quiescences, (unsigned long long)vt_stats.sig_deliveries,
 		   (unsigned long long)vt_stats.injected, mon_viol_total);
 	mon_printf("DONE\n");
